@@ -90,6 +90,31 @@ def lemmas():
     out.append(("rows of the flattened upper triangle do not overlap: TRIST(M, r) + (M - r) <= TRIST(M, i) for r < i <= M", [
         ("base", [r_ >= 0, tdef(r_)], mono(r_ + 1)),
         ("step", [r_ >= 0, r_ < i_, i_ < M_, tdef(i_), mono(i_)], mono(i_ + 1))]))
+    # L10 (fusion): the fold of a filtered list is the conditional fold of the list.  X: the list (elements of an arbitrary sort with a binary operation, no law needed),
+    #   HC(k)  conditional fold:  HC(0) = e,  HC(k+1) = M[k] ? HC(k) * X[k] : HC(k)
+    #   GF(j)  fold of the filtered list:  GF(0) = e,  GF(j+1) = GF(j) * X[IDXR(j)],  IDXR(j) = position of the j-th kept entry, whose defining property is
+    #          M[k]  =>  IDXR(CNTR(M, k)) = k      (the entry at k is kept after exactly CNTR(M, k) earlier kept entries)
+    #   claim  HC(k) = GF(CNTR(M, k))  for every k; at k = n: the conditional fold equals the fold of the whole filtered list (which has CNTR(M, n) entries).
+    El = z3.DeclareSort("El!fusion")
+    XA = z3.Const("X!fu", z3.ArraySort(z3.IntSort(), El))
+    OP = z3.Function("op!fu", El, El, El)
+    e0 = z3.Const("e!fu", El)
+    HC = z3.Function("HC!fu", z3.IntSort(), El)
+    GF = z3.Function("GF!fu", z3.IntSort(), El)
+    IDXR = z3.Function("IDXR!fu", z3.IntSort(), z3.IntSort())
+    hdef = lambda kk: z3.And(HC(z3.IntVal(0)) == e0, HC(kk + 1) == z3.If(z3.Select(M, kk), OP(HC(kk), z3.Select(XA, kk)), HC(kk)))
+    gdef = lambda jj: z3.And(GF(z3.IntVal(0)) == e0, GF(jj + 1) == OP(GF(jj), z3.Select(XA, IDXR(jj))))
+    idxdef = lambda kk: z3.Implies(z3.Select(M, kk), IDXR(CNTR(M, kk)) == kk)
+    claim = lambda kk: HC(kk) == GF(CNTR(M, kk))
+    out.append(("fusion: the conditional fold of a list equals the fold of its filtered sub-list (HC(k) = GF(CNTR(M, k)))", [
+        ("base", [cnt_def(M, k), hdef(k), gdef(k)], claim(z3.IntVal(0))),
+        ("step", [k >= 0, cnt_def(M, k), hdef(k), gdef(CNTR(M, k)), idxdef(k), claim(k)], claim(k + 1))]))
+    # L11: the conditional fold is unique: two functions that satisfy its recursion agree everywhere
+    HC2 = z3.Function("HC2!fu", z3.IntSort(), El)
+    hdef2 = lambda kk: z3.And(HC2(z3.IntVal(0)) == e0, HC2(kk + 1) == z3.If(z3.Select(M, kk), OP(HC2(kk), z3.Select(XA, kk)), HC2(kk)))
+    out.append(("the conditional fold is determined by its recursion (uniqueness)", [
+        ("base", [hdef(k), hdef2(k)], HC(z3.IntVal(0)) == HC2(z3.IntVal(0))),
+        ("step", [k >= 0, hdef(k), hdef2(k), HC(k) == HC2(k)], HC(k + 1) == HC2(k + 1))]))
     return out
 
 
